@@ -16,8 +16,6 @@ SPROPS = {
                 what="every operation finishes under fair schedules"),
     "C12": dict(profiles=[("list", 300, 25000), ("fast", 150, 10000), ("refs", 250, 20000), ("aba", 100, 8000)], tags={"C12", "C13"}, corpus=True,
                 what="happens-before for recycled memory and teardown"),
-    "C06": dict(profiles=[("list", 60, 4000), ("fast", 30, 2000), ("aba", 20, 1500), ("crashseq", 60, 4000)], tags={"C06"}, corpus=True, crash=True,
-                what="crash at any point leaves a reopenable, consistent file"),
 }
 
 def sites():
